@@ -98,14 +98,16 @@ pub fn main(args: &Args) -> i32 {
             let mut k = 0;
             while k < n {
                 // the kind of error cycles with the call index; NotFound (a kind that callers match on) at every index too
-                jobs.push(Fault { kind, k, persistent: false, ekind: (k % 7) as u8 });
-                jobs.push(Fault { kind, k, persistent: true, ekind: ((k + 3) % 7) as u8 });
-                if k % 7 != 1 {
+                jobs.push(Fault { kind, k, persistent: false, ekind: (k % 10) as u8 });
+                jobs.push(Fault { kind, k, persistent: true, ekind: ((k + 3) % 9) as u8 });
+                if k % 10 != 1 {
                     jobs.push(Fault { kind, k, persistent: false, ekind: 1 });
                 }
-                if (k + 3) % 7 != 1 {
+                if (k + 3) % 9 != 1 {
                     jobs.push(Fault { kind, k, persistent: true, ekind: 1 });
                 }
+                // a kind that invites a retry (TimedOut / WouldBlock, alternating) at every index as well
+                jobs.push(Fault { kind, k, persistent: false, ekind: 7 + (k % 2) as u8 });
                 k += stride;
             }
         }
@@ -122,7 +124,7 @@ pub fn main(args: &Args) -> i32 {
                 };
                 let (res, final_state_ok, _c, fired, tr) = run_with_fault(&script, f, &base_state);
                 let mut st = stats.lock().unwrap();
-                let fdesc = json!({"kind": format!("{:?}", f.kind), "k": f.k, "mode": if f.persistent { "persistent" } else { "transient" }, "error": format!("{:?}", crate::media::EKINDS[f.ekind as usize % 7])});
+                let fdesc = json!({"kind": format!("{:?}", f.kind), "k": f.k, "mode": if f.persistent { "persistent" } else { "transient" }, "error": format!("{:?}", crate::media::EKINDS[f.ekind as usize % 10])});
                 if res.iter().any(|r| r == "panic") {
                     st.3 += 1;
                     viols.lock().unwrap().push(json!({"kind": "fault-panic", "op": name, "what": format!("a call panicked under {} fault at {:?} call {}", if f.persistent { "a persistent" } else { "a transient" }, f.kind, f.k), "case": {"script": name, "fault": fdesc, "results": res}}));
@@ -131,7 +133,7 @@ pub fn main(args: &Args) -> i32 {
                     if let Err(e) = final_state_ok {
                         let mut vs = viols.lock().unwrap();
                         if vs.len() < 300 {
-                            vs.push(json!({"kind": "fault-lost", "op": name, "what": format!("every call returned Ok under a {} {:?} fault ({:?}) at call {} but {}", if f.persistent { "persistent" } else { "transient" }, f.kind, crate::media::EKINDS[f.ekind as usize % 7], f.k, e), "case": {"script": name, "fault": fdesc}}));
+                            vs.push(json!({"kind": "fault-lost", "op": name, "what": format!("every call returned Ok under a {} {:?} fault ({:?}) at call {} but {}", if f.persistent { "persistent" } else { "transient" }, f.kind, crate::media::EKINDS[f.ekind as usize % 10], f.k, e), "case": {"script": name, "fault": fdesc}}));
                         }
                     }
                     if fired > 0 {
